@@ -97,6 +97,11 @@ public:
 	return false;
       }
     std::string dest_dir(args[1]);
+    if (dest_dir.empty())
+      {
+	std::cerr << name() << ": the destination directory name must not be empty.\n";
+	return false;
+      }
     if (dest_dir.back() != '/')
       dest_dir.push_back('/');
 
